@@ -61,3 +61,68 @@ pub fn stdlib_call<'tree>(call: &J, src: &'tree Src, nodes: &[tree_sitter::Node<
         Ok(Err(e)) => json!({"status": "err", "kind": crate::exec::error_kind(&e), "display": format!("{}", e), "n": graph.node_count()}),
     }
 }
+
+/// load + execute (both modes) + render every error, for arbitrary DSL text (property C05)
+pub fn load_and_run(text: &str, src: &Src) -> J {
+    use tree_sitter_graph::{ExecutionConfig, NoCancellation, Variables};
+    let path = std::path::Path::new("prog.tsg");
+    let loaded = std::panic::catch_unwind(|| crate::exec::load(text));
+    let file = match loaded {
+        Err(p) => return json!({"load": "panic", "msg": panic_msg(p)}),
+        Ok(Err(e)) => {
+            let d = std::panic::catch_unwind(std::panic::AssertUnwindSafe(|| format!("{}", e)));
+            let pp = std::panic::catch_unwind(std::panic::AssertUnwindSafe(|| format!("{}", e.display_pretty(path, text))));
+            return json!({"load": "err", "display": d.is_ok(), "pretty": pp.is_ok(),
+                          "msg": d.unwrap_or_default(), "render_panic": pp.err().map(panic_msg).unwrap_or_default()});
+        }
+        Ok(Ok(f)) => f,
+    };
+    let mut out = serde_json::Map::new();
+    out.insert("load".into(), json!("ok"));
+    // feature tag (raw tree-sitter on the stanza queries): does tree-sitter report a match in which the capture
+    // appended to the stanza pattern is bound to no node, or to several?
+    let mut root_missing = false;
+    for stanza in &file.stanzas {
+        use streaming_iterator::StreamingIterator;
+        let mut cursor = tree_sitter::QueryCursor::new();
+        let mut it = cursor.matches(&stanza.query, src.tree.root_node(), src.text.as_bytes());
+        while let Some(m) = it.next() {
+            if m.nodes_for_capture_index(stanza.full_match_stanza_capture_index as u32).count() != 1 {
+                root_missing = true;
+            }
+        }
+    }
+    out.insert("root_missing".into(), json!(root_missing));
+    let functions = Functions::stdlib();
+    let globals = Variables::new();
+    for (key, lazy) in [("strict", false), ("lazy", true)] {
+        let config = ExecutionConfig::new(&functions, &globals).lazy(lazy);
+        let r = std::panic::catch_unwind(std::panic::AssertUnwindSafe(|| {
+            file.execute(&src.tree, &src.text, &config, &NoCancellation)
+        }));
+        let v = match r {
+            Err(p) => json!({"status": "panic", "msg": panic_msg(p)}),
+            Ok(Ok(g)) => {
+                let pj = std::panic::catch_unwind(std::panic::AssertUnwindSafe(|| {
+                    let _ = format!("{}", g.pretty_print());
+                    serde_json::to_string(&g).is_ok()
+                }));
+                json!({"status": "ok", "nodes": g.node_count(), "output_ok": pj.unwrap_or(false)})
+            }
+            Ok(Err(e)) => {
+                let d = std::panic::catch_unwind(std::panic::AssertUnwindSafe(|| format!("{}", e)));
+                let pp = std::panic::catch_unwind(std::panic::AssertUnwindSafe(|| {
+                    format!("{}", e.display_pretty(std::path::Path::new("src.py"), &src.text, path, text))
+                }));
+                json!({"status": "err", "kind": crate::exec::error_kind(&e), "display": d.is_ok(), "pretty": pp.is_ok(),
+                       "render_panic": pp.err().map(panic_msg).unwrap_or_default()})
+            }
+        };
+        out.insert(key.into(), v);
+    }
+    J::Object(out)
+}
+
+pub fn panic_msg(p: Box<dyn std::any::Any + Send>) -> String {
+    p.downcast_ref::<&str>().map(|s| s.to_string()).or_else(|| p.downcast_ref::<String>().cloned()).unwrap_or_default()
+}
